@@ -272,6 +272,7 @@ type delivery struct {
 	shPan   string
 	shJSON  []byte
 	hasSh   bool
+	neighbour bool // another hand was started in the same process; no operation on this hand
 	hopMut  bool // backend modified the state handed to it
 	restart bool // primary was rebuilt from JSON for this op
 }
@@ -287,8 +288,14 @@ func startGame(cfg *Cfg, withShadow bool) (*server, error, bool) {
 	}
 	gs := g.GetState()
 	permOK := isPermutation(orig, gs.Meta.Deck)
-	// pin the deck: no card has been dealt yet at the first wait point
-	gs.Meta.Deck = cloneStrs(cfg.Deck)
+	// pin the deck: no card has been dealt yet at the first wait point. The
+	// order is written into the engine's own slice (not a fresh one), so that
+	// whatever the engine's deck shares with other hands stays shared.
+	if len(gs.Meta.Deck) == len(cfg.Deck) {
+		copy(gs.Meta.Deck, cfg.Deck)
+	} else {
+		gs.Meta.Deck = cloneStrs(cfg.Deck)
+	}
 	s := &server{cfg: cfg, nb: table.NewNativeBackend()}
 	s.durable = marshalNorm(gs)
 	s.warm = g
@@ -323,6 +330,25 @@ func (s *server) state() *pokerface.GameState { return s.prev }
 // the trace replays exactly.
 func (s *server) deliver(st *sim.Step, idx int) *delivery {
 	d := &delivery{st: st, idx: idx, pre: s.prev, preJSON: s.durable}
+	if st.Actor == "server" && st.Op == "neighbour" {
+		// not an operation on this hand at all: only the oracles that
+		// compare states run on it
+		d.pan = s.neighbour()
+		d.neighbour = true
+		if s.warm != nil {
+			d.post = s.warm.GetState()
+			s.durable = marshalNorm(d.post)
+		} else {
+			d.post = fromJSON(s.durable)
+		}
+		d.postJSON = s.durable
+		s.prev = cloneGS(d.post)
+		if s.shadow != nil {
+			d.hasSh = true
+			d.shJSON = marshalNorm(s.shadow.GetState())
+		}
+		return d
+	}
 	if st.Mode == "hop" && !hoppable(s.prev, st) {
 		st.Mode = "cold"
 	}
@@ -375,4 +401,26 @@ func (s *server) deliver(st *sim.Step, idx int) *delivery {
 // restart on the side), for what-if probes that must not disturb the hand.
 func (s *server) probeClone() pokerface.Game {
 	return pokerface.NewGameFromState(fromJSON(s.durable))
+}
+
+// neighbour starts (and deals) another hand with the same options in the same
+// process, the way a table server hosts many tables; nothing of it may show
+// in this hand.
+func (s *server) neighbour() (pan string) {
+	defer func() {
+		if r := recover(); r != nil {
+			pan = fmt.Sprint(r)
+		}
+	}()
+	g := pokerface.NewGame(s.cfg.Options())
+	if err := g.Start(); err != nil {
+		return ""
+	}
+	g.ReadyForAll()
+	if s.cfg.Ante > 0 {
+		g.PayAnte()
+	}
+	g.PayBlinds()
+	g.ReadyForAll()
+	return ""
 }
